@@ -69,7 +69,8 @@ def subharnesses(tier):
                 }
                 subs.append(('%s-D%d-A%d-%s-down%d_up' % (topo, D, A, tag, j),
                              spec))
-    return subs + _loader_subs(tier) + _spelling_subs(tier)
+    return subs + _loader_subs(tier) + _spelling_subs(tier) + \
+        _partition_subs(tier)
 
 
 DIGITS = '0123456789'
@@ -132,6 +133,25 @@ def _spelling_harness(S, spec):
         S.check('C01:M_is_not_the_unit_of_the_resource_vector',
                 loader.resources({'memory': d + suf, 'disk': d + suf,
                                   'cpu': '1%'})[0] == val, {'digits': d})
+
+
+def _partition_subs(tier):
+    """Two partitions; a placed instance is moved to an allocation of the
+    other partition (Cell.add_app, as Loader.load_app does)."""
+    subs = []
+    allocs = [{'path': [], 'label': 'p0'}, {'path': [], 'label': 'p1'}]
+    for pl in [(0, None, None), (0, 0, None), (0, None, 1), (0, 1, 1)]:
+        apps = [{'place': j, 'alloc': ['p%d' % (j or 0)]} for j in pl]
+        for i, j in enumerate(pl):
+            if j is None:
+                continue
+            spec = {'topo': 'T1', 'D': 2,
+                    'servers': [{'label': 'p0'}, {'label': 'p1'}],
+                    'allocs': allocs, 'apps': apps,
+                    'event': ['move_app', i, ['p%d' % (1 - j)]],
+                    'two_cycles': True}
+            subs.append(('partition-%s-move%d' % (g1.ptag(pl), i), spec))
+    return subs
 
 
 def _loader_subs(tier):
